@@ -19,6 +19,7 @@ META = {
                        "(trusted); Ord consistent with Eq for the set is C16",
     "trusted_base": ["std BTreeSet contains/insert", "ciborium data-model normalisation of map keys", "C16 (Ord consistent with Eq)"],
 }
+META["decides"] += " R-1 also: no entry skips the duplicate check, the map's entries are iterated as received, the duplicate rejection is not swallowed at any nesting position, derived Clone / PartialEq / Eq."
 
 DECODERS = ["header::Header::from_cbor_value_depth", "<key::CoseKey as common::AsCborValue>::from_cbor_value",
             "<cwt::ClaimsSet as common::AsCborValue>::from_cbor_value"]
@@ -41,13 +42,19 @@ def check_decoder(ctx, key, rule="R-1"):
            where=f.where(d["contains_bb"]) if d["contains_bb"] is not None else f.span, detail=d,
            sample={"fn": key, "style": d["style"], "label": md.label_decoder})
     gates = md.dup_gate_blocks()
+    # blocks of the loop body that can be reached from the loop header without passing a gate (failure-following: the Err exit
+    # of a helper that performs the check joins its success exit before the caller's `?` separates them again)
+    from lib.guards import reach_tracking_failures
+    unguarded = set()
+    for g in gates:
+        unguarded |= reach_tracking_failures(f, md.loop[0], {g})
     late = []
     n = 0
     for fld, e in md.field_effects():
         if e["bb"] not in md.loop[1]:
             continue
         n += 1
-        if not gates or not all(f.cfg.dominates(g, e["bb"]) for g in gates):
+        if not gates or e["bb"] in unguarded:
             late.append("%s (%s)" % (fld, f.where(e["bb"])))
     ctx.ob(rule, "check-before-use:%s" % key, not late and n > 0,
            "the duplicate check dominates all %d writes to the result in the loop body" % n, where=f.span,
